@@ -152,6 +152,11 @@ MOD_ITEMS_OTHER = [
     "static CLOSURE: fn() = || { fn f() {} };",
     "struct Gen<const N: usize = { 1 + 1 }>;",
     "trait Alias2 = Clone + Send;",
+    # a top-level `=` in the header of an item that ends with a brace group
+    "fn private_iter() -> impl Iterator<Item = u32> { 0..1 }",
+    "pub struct Page<T = u32> { pub t: T }",
+    "pub enum Gen2<const K: usize = 2> { A }",
+    "impl<I: Iterator<Item = u8>> From<I> for Tup { fn from(_: I) -> Self { Tup(0, 0) } }",
     "pub const fn const_private_like() {}" if False else "const fn private_const() {}",
 ]
 
